@@ -213,6 +213,6 @@ def decode_from(stream):
         return pickle.load(stream)
     elif prefix == b'N':
         import numpy as np
-        return np.load(stream)
+        return np.load(stream, allow_pickle=True)
     else:
         raise IOError("jug.backend.decode_from: unknown prefix '%s'" % prefix)
